@@ -1,4 +1,5 @@
 import SwcVerif.Props.C09
+import SwcVerif.Props.C09Gen
 #print axioms C09.mkTree_wf
 #print axioms C09.step_wf
 #print axioms C09.run_wf
@@ -12,3 +13,16 @@ import SwcVerif.Props.C09
 #print axioms C09.write_frame
 #print axioms C09.tree_segments
 #print axioms C09.branch_segments
+#print axioms C09.generated_view_read_eq_model
+#print axioms C09.generated_path_column
+#print axioms C09.generated_path_getitem_int
+#print axioms C09.generated_tree_getitem_int
+#print axioms C09.generated_path_getitem_slice
+#print axioms C09.generated_tree_getitem_slice
+#print axioms C09.generated_node_write_through
+#print axioms C09.generated_write_then_view_read
+#print axioms C09.generated_path_node_write_lost
+#print axioms C09.generated_detach
+#print axioms C09.generated_copy
+#print axioms C09.generated_branch_segments
+#print axioms C09.generated_tree_segments
